@@ -2,6 +2,9 @@
 """Regenerates MANIFEST.json from the table below (kept here so the manifest is always valid JSON)."""
 import json, subprocess
 CHECKS = {
+ "C18": ("exploration", "runtime monitor: realisation-invariance (metamorphic): canonical Go representation vs PRNG alternative representations of the same logical bindings",
+         "Five template families, each restricted to the positions the statement names for its representation class (Drops by value/pointer at any depth + typed slices/arrays/maps under generated programs and 38 targeted Drop positions; every numeric width incl. unsigned under print/compare/arithmetic; pointers on values reached by lookup; yaml.MapSlice under lookup and size; []byte under print and string filters); every (template, logical env) is rendered canonically and in 8 (quick) / 24 (thorough) alternative realisations chosen independently at every node; results must be byte-identical or both fail.",
+         "Text forms of maps and nested arrays (Go syntax) are outside every property and are skipped; json/inspect/type are not used; widths are not used as indices or loop modifiers.", "DESIGN.md 5/C18"),
  "C06": ("exploration", "runtime monitor: reference nesting automaton + parse-tree isomorphism (GetRoot via reflection) + marker render",
          "All symbol sequences over the 22-symbol block alphabet up to length 4 (quick) / 5 (thorough), over a reduced 9-symbol alphabet up to length 6 / 7, and PRNG well-nested templates of depth <= 40 with all their one-edit neighbours are parsed by the real code. Oracle: acceptance iff the reference stack automaton accepts; rejected templates render nothing; accepted trees are isomorphic to the reference tree; unique text markers render under exactly their enclosing blocks/clauses in two runs (conditions true/false, loops one-element/empty).",
          "Comment/raw bodies are opaque; repeated or misordered clauses are accepted and their rendering not asserted.", "DESIGN.md 5/C06"),
